@@ -12,6 +12,7 @@ package main
 //   lo     127.0.0.1/8   (application scans)
 
 import (
+	"io"
 	"bytes"
 	"encoding/binary"
 	"fmt"
@@ -358,7 +359,48 @@ func firstAllowedCPU() int {
 }
 
 func startSX(oneCPU bool, stdin []byte, args ...string) (*sxProc, error) {
+	return startSXOpt(sxOpt{}, oneCPU, stdin, args...)
+}
+
+// sxOpt: the environment of one sx process, as an operator's shell may set it up
+//
+//	nofile     > 0: RLIMIT_NOFILE of the process (`ulimit -n`)
+//	slowStderr > 0: stderr is a pipe whose reader takes its first reads this far apart (a paused terminal, `2>&1 | less`)
+type sxOpt struct {
+	nofile     int
+	slowStderr time.Duration
+}
+
+// slowWriter: the far end of a pipe that lags (the first `n` reads only, so that every run ends)
+type slowWriter struct {
+	w     io.Writer
+	pause time.Duration
+	n     int
+}
+
+func (s *slowWriter) Write(p []byte) (int, error) {
+	if s.n > 0 {
+		s.n--
+		time.Sleep(s.pause)
+	}
+	return s.w.Write(p)
+}
+
+func runSXOpt(o sxOpt, stdin []byte, timeout time.Duration, args ...string) sxRun {
+	p, err := startSXOpt(o, false, stdin, args...)
+	if err != nil {
+		return sxRun{stderr: err.Error(), exit: -1}
+	}
+	return p.wait(timeout)
+}
+
+func startSXOpt(o sxOpt, oneCPU bool, stdin []byte, args ...string) (*sxProc, error) {
 	bin := os.Getenv("SX_BIN")
+	if o.nofile > 0 {
+		// the shell execs the program: same process, so signals reach sx itself
+		args = append([]string{"-c", fmt.Sprintf(`ulimit -n %d; exec "$0" "$@"`, o.nofile), bin}, args...)
+		bin = "/bin/sh"
+	}
 	p := &sxProc{donec: make(chan error, 1)}
 	cpu := -1
 	if oneCPU {
@@ -377,6 +419,9 @@ func startSX(oneCPU bool, stdin []byte, args ...string) (*sxProc, error) {
 		p.cmd = exec.Command(bin, args...)
 	}
 	p.cmd.Stdout, p.cmd.Stderr = &p.so, &p.se
+	if o.slowStderr > 0 {
+		p.cmd.Stderr = &slowWriter{w: &p.se, pause: o.slowStderr, n: 12}
+	}
 	p.cmd.Env = append(os.Environ(), hostileEnv()...)
 	if stdin != nil {
 		p.cmd.Stdin = bytes.NewReader(stdin)
